@@ -132,6 +132,32 @@ def canon(x):
     return json.dumps(x, sort_keys=True)
 
 
+def conforms(proj, g, o):
+    """None if the projected observation follows some TLC behaviour call by call (or leaves the calls the
+    model's branch allows), else (index of the first deviating call, observed, expected)."""
+    po = proj(o)
+    pref = g.get("prefix_outcomes") or [[] for _ in g["steps"][:-1]] + [g["outcomes"]]
+    if len(po) != len(g["steps"]) or not pref[-1]:
+        raise ToolError("observation / expectation of %s incomplete" % (g["key"],))
+    judged = 0
+    for i in range(len(po)):
+        allowed = [proj(x) for x in pref[i]]
+        if not allowed:
+            continue             # TLC printed no behaviour ending here (scripted prefix)
+        if not any(canon(pe[:i]) == canon(po[:i]) for pe in allowed):
+            if judged == 0:
+                raise ToolError("no model behaviour shares the first %d calls of %s" % (i, g["key"],))
+            return None          # the model's branch the implementation is in has no such call: stop judging
+        judged += 1
+        if any(canon(pe[:i + 1]) == canon(po[:i + 1]) for pe in allowed):
+            continue
+        exp = next(pe for pe in allowed if canon(pe[:i]) == canon(po[:i]))
+        return i, po[i], exp[i]
+    if judged == 0:
+        raise ToolError("nothing was compared for %s" % (g["key"],))
+    return None
+
+
 def judge(ctx, prop, scen, obs, describe):
     """Compares observation and expectation for property `prop`, call by call: after call i the
     projected observation must equal that of some TLC behaviour with the same first i calls.  When the
@@ -150,21 +176,84 @@ def judge(ctx, prop, scen, obs, describe):
                        "relay code panicked while replaying %s: %s" % (g["steps"], o["error"]), replay_of(g, o))
             bad += 1
             continue
-        po = proj(o)
-        pref = g.get("prefix_outcomes") or [[] for _ in g["steps"][:-1]] + [g["outcomes"]]
-        prev_allowed = None
-        for i in range(len(po)):
-            allowed = [proj(x) for x in pref[i]]
-            if not any(canon(pe[:i]) == canon(po[:i]) for pe in allowed):
-                break            # the model's branch the implementation is in has no such call: stop judging
-            if any(canon(pe[:i + 1]) == canon(po[:i + 1]) for pe in allowed):
-                continue
-            exp = next(pe for pe in allowed if canon(pe[:i]) == canon(po[:i]))
-            sig, what = describe(g, i, po[i], exp[i])
+        dev = conforms(proj, g, o)
+        if dev is not None:
+            sig, what = describe(g, dev[0], dev[1], dev[2])
             ctx.report(sig, what, replay_of(g, o))
             bad += 1
-            break
     return bad
+
+
+def binding_selftest(ctx, prop, scen, obs, limit=200):
+    """Shows that the comparison bites: accepted observations are corrupted in one place (a datagram's
+    sender id, a status frame's kind, a dropped frame, a connection reported closed) and must then be
+    rejected under this property's projection."""
+    import copy
+    proj = PROJECTIONS[prop]
+    tried = rejected = 0
+    for g, o in zip(scen, obs):
+        if tried >= limit or o.get("error") or conforms(proj, g, o) is not None:
+            continue
+        muts = []
+        for c, items in o["wire"].items():
+            for j, m in enumerate(items):
+                if m["t"] == "dg" and prop == "C04":
+                    x = copy.deepcopy(o); x["wire"][c][j]["src"] = "B" if m["src"] != "B" else "A"; muts.append(x)
+                    x = copy.deepcopy(o); x["wire"][c][j]["cls"] = "corrupt-contents"; muts.append(x)
+                if m["t"] in ("same", "healthy") and prop == "C06":
+                    x = copy.deepcopy(o); x["wire"][c][j]["t"] = "healthy" if m["t"] == "same" else "same"; muts.append(x)
+        if prop == "C05":
+            for c in o["after"][-1]["marks"]:
+                if not o["after"][-1]["marks"][c]["gone"] and any(s["op"] == "connect" and s["c"] == c for s in g["steps"]):
+                    x = copy.deepcopy(o); x["after"][-1]["marks"][c]["gone"] = True; muts.append(x)
+        for x in muts[:3]:
+            tried += 1
+            if conforms(proj, g, x) is not None:
+                rejected += 1
+    if tried == 0 or rejected != tried:
+        raise ToolError("binding self-test (%s, mode A): %d of %d corrupted observations were rejected" % (prop, rejected, tried))
+    st = ctx.cov.setdefault("binding_selftests", {})
+    st["modeA_corrupted_observations_rejected"] = st.get("modeA_corrupted_observations_rejected", 0) + rejected
+    return rejected
+
+
+def trace_selftest(ctx, prop, evs):
+    """Mode B: one field of one event of an accepted log is corrupted / one event is removed; TLC must
+    reject both logs."""
+    import copy
+    want = (lambda e: e["ev"] == "recv" and e["t"] == "dg") if prop == "C04" else \
+           (lambda e: e["ev"] == "recv" and e["t"] in ("same", "healthy", "gone"))
+    idx = [i for i, e in enumerate(evs) if want(e)]
+    if not idx:
+        raise ToolError("trace self-test: no event to corrupt")
+    i = idx[len(idx) // 2]
+    a = copy.deepcopy(evs)
+    if prop == "C04":
+        a[i]["src"] = "B" if a[i]["src"] != "B" else "A"
+    else:
+        a[i]["t"] = {"same": "healthy", "healthy": "same", "gone": "same"}[a[i]["t"]]
+    logs = [("corrupt", a)]
+    # removing a delivery is only detectable when a later delivery from the same queue of the same
+    # connection follows in the same run (the queues are FIFO; the spec does not oblige the relay to
+    # deliver within the log)
+    same_queue = (lambda x, y: (x["t"] == "dg") == (y["t"] == "dg") and x["t"] != "pong" and y["t"] != "pong")
+    for i2 in idx:
+        nxt = next((j for j in range(i2 + 1, len(evs)) if evs[j]["ev"] == "reset" or
+                    (evs[j]["ev"] == "recv" and evs[j]["c"] == evs[i2]["c"] and same_queue(evs[i2], evs[j]))), None)
+        if nxt is not None and evs[nxt]["ev"] == "recv":
+            logs.append(("removed", evs[:i2] + evs[i2 + 1:]))
+            break
+    n = 0
+    for name, log in logs:
+        pth = ctx.write_ndjson("%s-selftest-%s.ndjson" % (prop.lower(), name), log)
+        before = ctx.cov["traces_validated_against_impl"]
+        res = ctx.tlc_trace("relay", "Trace_RelayServer", pth, cfg="Trace_RelayServer.cfg", timeout=6000)
+        ctx.cov["traces_validated_against_impl"] = before
+        if res.ok:
+            raise ToolError("trace self-test (%s): the %s log was accepted" % (prop, name))
+        n += 1
+    st = ctx.cov.setdefault("binding_selftests", {})
+    st["modeB_corrupted_logs_rejected"] = st.get("modeB_corrupted_logs_rejected", 0) + n
 
 
 def replay_of(g, o):
@@ -182,12 +271,14 @@ def sample_of(g, o, proj):
 # which property an unexplained event concerns
 def owner_of(e):
     if e["ev"] == "recv":
-        return "C04" if e["t"] == "dg" else "C06"
+        # which connection receives a datagram is forwarding (C04) and registry (C06: "delivers traffic
+        # for that id to the most recently connected connection still open") at once
+        return ("C04", "C06") if e["t"] == "dg" else ("C06",)
     if e["ev"] == "ret":
-        return "C06"
+        return ("C06",)
     if e["ev"] == "drop":
-        return "C05"
-    return None
+        return ("C05", "C06")
+    return ()
 
 
 INVARIANT_OWNER = {"PacketsWellAddressed": "C04", "AtMostOnce": "C04", "FifoPerSender": "C04", "WireClean": "C04",
@@ -230,6 +321,9 @@ def random_traces(ctx, prop, n, length, seed_offset=0):
             ctx.report({"kind": "invariant", "inv": res.violated, "mode": "trace"},
                        "invariant %s is false on a state reconstructed from a real multi-thread run" % res.violated,
                        {"events": evs})
+        elif ctx.violations:
+            ctx.log("invariant %s (property %s) violated on a reconstructed state; violations of %s were already reported"
+                    % (res.violated, own, prop))
         else:
             raise ToolError("trace validation: invariant %s (property %s) violated in %s's random runs; see check %s"
                             % (res.violated, own, prop, own))
@@ -237,10 +331,12 @@ def random_traces(ctx, prop, n, length, seed_offset=0):
         idx = res.trace_rejected_at
         e = evs[idx - 1] if 0 < idx <= len(evs) else {"ev": "eof", "t": "none"}
         own = owner_of(e)
-        if own == prop:
+        if prop in own:
             ctx.report({"kind": "unexplained_" + (e["ev"] if e["ev"] != "recv" else "recv_" + e["t"]), "mode": "trace"},
                        "no interleaving of the spec explains event %d of a real multi-thread run: %s" % (idx, json.dumps(e)),
                        {"events": run_of(idx), "rejected_event": e})
+        elif ctx.violations:
+            ctx.log("trace rejected at event %d %s (kind of %s); violations of %s were already reported" % (idx, json.dumps(e), own, prop))
         else:
             raise ToolError("NONCONFORMANCE: trace rejected at event %d %s (kind of property %s) in %s's random runs"
                             % (idx, json.dumps(e), own, prop))
